@@ -6,20 +6,26 @@ def run(prop, tier, seed, binary, V, CACHE, GOENV, sh, Lock, log, levels=(0,)):
     drv = os.path.join(V, "lean", ".lake", "build", "bin", "fgmodel")
     if not os.path.exists(drv):
         return []
-    obligations = []
     from checklib import corrspec
+    from concurrent.futures import ThreadPoolExecutor
+    jobs = []
     for kind in corrspec.KINDS.get(prop, []):
         n = corrspec.COUNT[kind][0 if tier == "quick" else 1]
         # the control-model correspondences run at level 0 (the control flow does not depend on the level);
-        # the leaf-contract check G runs at every level the tier selects (Go and assembly match finders)
+        # the leaf-contract checks G and E run at every level the tier selects (Go and assembly leaves)
         for lvl in (levels if kind in corrspec.PER_LEVEL else (0,)):
-            name = "corr/" + kind + ("@L%d" % lvl if kind in corrspec.PER_LEVEL else "")
-            env = dict(GOENV, FASTGO_VERIF_ARCHLEVEL=str(lvl), FGMODEL=drv)
-            try:
-                rc, so, se = sh([binary, "-corr", kind, "-tier", tier, "-seed", str(seed), "-n", str(n)], env=env, timeout=1200)
-            except Exception as e:  # timeout
-                obligations.append(dict(name=name, kind="correspondence", ok=False, detail="timeout/exception %s" % e))
-                continue
-            ok = rc == 0
-            obligations.append(dict(name=name, kind="correspondence", ok=ok, detail=(so[-3000:] + se[-3000:]) if not ok else so[-400:]))
-    return obligations
+            jobs.append((kind, n, lvl))
+
+    def one(job):
+        kind, n, lvl = job
+        name = "corr/" + kind + ("@L%d" % lvl if kind in corrspec.PER_LEVEL else "")
+        env = dict(GOENV, FASTGO_VERIF_ARCHLEVEL=str(lvl), FGMODEL=drv)
+        try:
+            rc, so, se = sh([binary, "-corr", kind, "-tier", tier, "-seed", str(seed), "-n", str(n)], env=env, timeout=2400)
+        except Exception as e:  # timeout
+            return dict(name=name, kind="correspondence", ok=False, detail="timeout/exception %s" % e)
+        ok = rc == 0
+        return dict(name=name, kind="correspondence", ok=ok, detail=(so[-3000:] + se[-3000:]) if not ok else so[-400:])
+
+    with ThreadPoolExecutor(max_workers=6) as ex:  # independent processes; results keep the order of `jobs`
+        return list(ex.map(one, jobs))
